@@ -195,6 +195,11 @@ func generate(prop string, seed uint64, run int, tier string) *Scenario {
 			}
 		}
 
+		// C03: a backend that reports expired entries without the expired item
+		if prop == "C03" && len(sc.FO.Init) > 0 && sc.FO.Init[0].State == "stale" && !sc.FO.DefaultBackend && chance(lr, 0.15) {
+			sc.FO.PlainExpired = true
+		}
+
 		// mutability observation switched on without a stats tracker (nothing to report the observation to)
 		if !sc.FO.Cfg.Stats && chance(lr, 0.08) {
 			sc.FO.Cfg.ObserveMutability = true
